@@ -58,7 +58,7 @@ def unjustified_sites():
     """Ask Coq which sites of the regenerated table no policy rule covers (the gen file and the policy compile even
     when props/C19.v does not)."""
     src = ("From Coq Require Import String List.\nFrom GS Require Import HttpPanic HttpPanicPolicy HttpPanicSites.\n"
-           "Eval vm_compute in (map (fun s => (ps_pkg s, ps_func s, ps_kind s, ps_expr s, ps_conds s, ps_dbg s)) "
+           "Set Printing Depth 100000.\nEval vm_compute in (map (fun s => (ps_pkg s, ps_func s, ps_kind s, ps_expr s, ps_conds s, ps_dbg s)) "
            "(unjustified http_panic_policy sites)).\n")
     f = os.path.join(C.BUILD, "unjustified_%d.v" % os.getpid())
     open(f, "w").write(src)
@@ -75,6 +75,71 @@ def unjustified_sites():
     sites = re.findall(r'\("([^"]*)",\s*"([^"]*)",\s*(\w+),\s*"((?:[^"]|"")*)",\s*(\[[^\]]*\]|nil),\s*"([^"]*)"\)', body)
     return [{"package": a, "function": b, "kind": k, "expression": e.replace('""', '"'), "conditions": c, "at": d}
             for a, b, k, e, c, d in sites], ""
+
+
+KINDS = ["PIndex", "PSlice", "PPanic", "PMapWrite", "PSend", "PClose", "PAssert", "PCallFuncValue", "PDeref", "PDiv",
+         "PCallApi", "POnceRearm", "PMake"]
+
+
+def policy_rules():
+    """The rules of model/HttpPanicPolicy.v as (package, kind, expression, needed conditions).  Each rule is printed by Coq
+    as ONE string (fields joined by characters that do not occur in Go source), so line wrapping cannot split a field."""
+    src = ("From Coq Require Import String List Ascii.\nFrom GS Require Import HttpPanic HttpPanicPolicy.\nOpen Scope string_scope.\n"
+           "Definition us := String (ascii_of_nat 31) EmptyString.\nDefinition rs := String (ascii_of_nat 30) EmptyString.\n"
+           "Definition kc (k : pkind) := String (ascii_of_nat (65 + pkind_code k)) EmptyString.\n"
+           "Eval vm_compute in (map (fun r => r_pkg r ++ us ++ kc (r_kind r) ++ us ++ r_expr r ++ us ++ "
+           "String.concat rs (r_need r)) http_panic_policy).\n")
+    f = os.path.join(C.BUILD, "policyrules_%d.v" % os.getpid())
+    open(f, "w").write(src)
+    with C.Lock("coq"):
+        rc, out = C.sh(["timeout", "300", "coqc"] + C.coq_flags() + [f], cwd=C.COQ)
+    for ext in (".v", ".vo", ".vok", ".vos", ".glob"):
+        try:
+            os.unlink(f[:-2] + ext)
+        except OSError:
+            pass
+    if rc != 0:
+        return None
+    body = out.split(": list", 1)[0]
+    rules = []
+    for m in re.findall(r'"((?:[^"]|"")*)"', body, flags=re.S):
+        f4 = m.replace('""', '"').split("\x1f")
+        if len(f4) != 4 or len(f4[1]) != 1 or not (0 <= ord(f4[1]) - 65 < len(KINDS)):
+            return None
+        rules.append((f4[0], KINDS[ord(f4[1]) - 65], f4[2], [c for c in f4[3].split("\x1e") if c]))
+    return rules
+
+
+GO_WORDS = {"len", "cap", "nil", "true", "false", "make", "append", "panic", "close", "func", "range", "chan", "map",
+            "struct", "interface", "string", "int", "bool", "error"}
+
+
+def shape(expr):
+    """An expression up to the names of identifiers (Go keywords, builtins and literals stay)."""
+    return re.sub(r"[A-Za-z_][A-Za-z0-9_]*", lambda m: m.group(0) if m.group(0) in GO_WORDS else "_",
+                  re.sub(r"\s+", "", expr))
+
+
+def rename_equivalent(site, rules):
+    """The uncovered site equals a covered expression up to identifier names: same package (or a rule for any package),
+    same kind, same expression shape, and every lexical condition the rule needs is present up to names.  Function names
+    are ignored (helper extraction moves expressions between functions).  PRECISION: this forgives, besides renamings, a
+    new expression whose shape and guards coincide with a covered one of the same package and kind (e.g. a second
+    unguarded dereference of a constructor-initialised field); such a site is left to the escalated dynamic leg."""
+    conds = {shape(c) for c in re.findall(r'"((?:[^"]|"")*)"', site["conditions"])}
+    for pkg, kind, expr, need in rules:
+        if pkg not in ("", site["package"]) or kind != site["kind"]:
+            continue
+        if shape(expr) == shape(site["expression"]) and all(shape(n) in conds for n in need):
+            return True
+    return False
+
+
+def inventory_report():
+    """Compile coq/report/C19PanicReport.v (the three inventory theorems) against the regenerated table."""
+    with C.Lock("coq"):
+        rc, out = C.sh(["timeout", "600", "coqc"] + C.coq_flags() + ["report/C19PanicReport.v"], cwd=C.COQ)
+    return rc == 0 and out.count("Closed under the global context") >= 3, out
 
 
 def run(run):
@@ -99,19 +164,39 @@ def run(run):
         "*_legacy refutations describe the code before the repair",
         "extraction via ExtrOcamlBasic only; OCaml driver ocaml/http.ml + util.ml; Go harness cmd/http"])
     escalate = False
-    if okg and not proved:
-        # which obligation broke?  If it is the inventory, name the new sites and let the dynamic leg search harder
-        us, err = unjustified_sites()
-        if us:
+    if okg and proved:
+        inv_ok, inv_out = inventory_report()
+        run.coverage["panic_inventory_report"] = "coq/report/C19PanicReport.v: " + ("3 theorems closed" if inv_ok else "does not check")
+        if inv_ok:
+            run.coverage["obligations"] = run.coverage.get("obligations", 0) + 3
+            run.coverage["discharged"] = run.coverage.get("discharged", 0) + 3
+        else:
+            # which sites are uncovered?  A site that equals a covered one up to identifier names is a RENAMING of the
+            # source (drift: the dynamic leg searches harder, nothing is reported); any other uncovered site is a broken
+            # obligation and is named.
             escalate = True
-            run.coverage["unjustified_panic_sites"] = us
-            run.violation("panic-site-unjustified:" + ";".join(sorted(set("%s.%s:%s:%s" % (
-                u["package"], u["function"], u["kind"], u["expression"]) for u in us)))[:300],
-                {"theorem": "C19_panic_sites_justified (coq/props/C19.v) no longer holds for the regenerated "
-                            "coq/gen/HttpPanicSites.v", "sites": us},
-                "the source contains %d panic-capable expression(s) that the policy model/HttpPanicPolicy.v does not justify: %s"
-                % (len(us), "; ".join("%s %s in %s.%s (%s) under %s" % (u["kind"], u["expression"], u["package"], u["function"],
-                                                                     u["at"], u["conditions"]) for u in us[:4])), True)
+            us, err = unjustified_sites()
+            rules = policy_rules()
+            if us is None or rules is None or not us:
+                run.violation("panic-inventory-broken", {"log": (err or inv_out)[-2000:]},
+                              "coq/report/C19PanicReport.v no longer checks and the uncovered sites could not be listed", True)
+            else:
+                new_sites = [u for u in us if not rename_equivalent(u, rules)]
+                drift = [u for u in us if rename_equivalent(u, rules)]
+                run.coverage["panic_site_rename_drift"] = ["%s.%s:%s:%s" % (u["package"], u["function"], u["kind"], u["expression"])
+                                                           for u in drift]
+                if drift:
+                    run.notes.append("%d panic site(s) differ from covered ones only by identifier / function names (renaming "
+                                     "drift): dynamic leg escalated, not reported" % len(drift))
+                if new_sites:
+                    run.coverage["unjustified_panic_sites"] = new_sites
+                    run.violation("panic-site-unjustified:" + ";".join(sorted(set("%s.%s:%s:%s" % (
+                        u["package"], u["function"], u["kind"], u["expression"]) for u in new_sites)))[:300],
+                        {"theorem": "C19_panic_sites_justified (coq/report/C19PanicReport.v) no longer holds for the regenerated "
+                                    "coq/gen/HttpPanicSites.v", "sites": new_sites},
+                        "the source contains %d panic-capable expression(s) that the policy model/HttpPanicPolicy.v does not justify: %s"
+                        % (len(new_sites), "; ".join("%s %s in %s.%s (%s) under %s" % (
+                            u["kind"], u["expression"], u["package"], u["function"], u["at"], u["conditions"]) for u in new_sites[:4])), True)
     if not H.build(run):
         return
     det = os.path.join(C.BUILD, "c19-detail-%d.jsonl" % os.getpid())
